@@ -584,6 +584,9 @@ pub fn catch<T>(f: impl FnOnce() -> T) -> Result<T, String> {
 pub fn quiet_panics() {
     std::panic::set_hook(Box::new(|info| {
         let loc = info.location().map(|l| format!("{}:{}", l.file(), l.line())).unwrap_or_default();
+        if std::env::var_os("VERIF_LOUD_PANICS").is_some() {
+            eprintln!("[panic] {loc} on thread {:?}: {}", std::thread::current().name(), info);
+        }
         LAST_PANIC_LOC.with(|c| *c.borrow_mut() = loc);
     }));
 }
